@@ -387,8 +387,11 @@ def rule_fence(ctx, res):
     s = model.func(P + ':Parser._stat')
     ok, why = _fence_is_line_end(ctx, s)
     if ok is None:
-        res.undecided('R-C08-fence', s.qual,
-                      'fence = index of the next newline token', why, s.loc)
+        helper = _fence_helper_evaluated(ctx, res, s)
+        if helper is None:
+            res.undecided('R-C08-fence', s.qual,
+                          'fence = index of the next newline token', why,
+                          s.loc)
     else:
         res.check(ok, 'R-C08-fence', s.qual,
                   'fence = index of the next newline token',
@@ -397,6 +400,130 @@ def rule_fence(ctx, res):
                   'fence position is no longer the next TokNewline: ' + why,
                   s.loc)
     res.require_min('R-C08-fence', 3)
+
+
+def _fence_helper_evaluated(ctx, res, s):
+    """The fence is computed by a parser method `self.<m>(<position>)`: the
+    method is evaluated (absint/cx.py) on a parser object with a listed token
+    line structure, for positions asked in an order that also goes BACK --
+    the parser backtracks (`self._pos = <saved>`), so the same object is
+    asked about an earlier line after a later one.  Each answer must be the
+    index of the first line-end token at or behind the position (the number
+    of tokens when there is none).  A wrong answer is a violation only when
+    nothing else could have invalidated the method's remembered state in
+    between: every attribute it reads besides `_tokens` is stored by the
+    method itself, `__init__` and `process_tokens` only; otherwise, and
+    when the evaluation cannot follow it, the verdict stays "cannot follow".
+    -> True (a verdict was recorded) / None"""
+    from ..absint import cx as CX
+    model = ctx.model
+    cls = model.cls(P + ':Parser')
+    calls = []
+    for n in walk_own(s.node):
+        if isinstance(n, ast.Assign) and len(n.targets) == 1 and \
+                ast.unparse(n.targets[0]) == 'self._max_pos' and \
+                isinstance(n.value, ast.Call) and \
+                isinstance(n.value.func, ast.Attribute) and \
+                isinstance(n.value.func.value, ast.Name) and \
+                n.value.func.value.id == 'self' and \
+                len(n.value.args) == 1 and not n.value.keywords:
+            calls.append(n.value.func.attr)
+    if not calls:
+        # the normaliser may have spliced the method into _stat: a Parser
+        # method the pinned tree does not have, taking one position, that
+        # looks for line-end tokens
+        from .. import normalise
+        base = normalise.load_baseline()['functions']
+        for g in cls.methods.values():
+            if g.qual in base or len(g.params()) != 2:
+                continue
+            src_ = ast.unparse(g.node)
+            if 'TokNewline' in src_ and '_tokens' in src_:
+                calls.append(g.name)
+    if len(set(calls)) != 1:
+        return None
+    m = model.lookup_method(cls, calls[0])
+    if m is None:
+        return None
+    inst = 'fence = index of the next newline token (method {} evaluated ' \
+        'with positions asked out of order)'.format(m.name)
+    # state the method keeps, and who else stores it
+    reads = {n.attr for n in walk_own(m.node)
+             if isinstance(n, ast.Attribute) and isinstance(n.value, ast.Name)
+             and n.value.id == 'self' and isinstance(n.ctx, ast.Load)} - \
+        {'_tokens'}
+    reads = {a for a in reads if model.lookup_method(cls, a) is None}
+    foreign = []
+    # read off the source as written (the normaliser may have spliced the
+    # method's own stores into its caller)
+    try:
+        with open(cls.module.path, 'rb') as fh:
+            raw = ast.parse(fh.read())
+    except (OSError, SyntaxError) as e:
+        raise AnalysisError('source of the parser not readable: ' + str(e))
+    for c_ in ast.walk(raw):
+        if not (isinstance(c_, ast.ClassDef) and c_.name == 'Parser'):
+            continue
+        for g in c_.body:
+            if not isinstance(g, ast.FunctionDef) or g.name in (
+                    m.name, '__init__', 'process_tokens'):
+                continue
+            for n in ast.walk(g):
+                if isinstance(n, ast.Attribute) and isinstance(
+                        n.value, ast.Name) and n.value.id == 'self' and \
+                        isinstance(n.ctx, ast.Store) and n.attr in reads:
+                    foreign.append('{} in {}'.format(n.attr, g.name))
+    LEX = 'pico8.lua.lexer:'
+    layout = 'a b N c d N e'.split()       # N = line end
+    try:
+        cxi = CX.Cx(model, ctx.consts)
+        chunk = CX.Opaque('chunk', {
+            'store_token_groups': lambda c, a, k: None})
+        cxi.hooks = {P + ':Parser._chunk':
+                     lambda c, a, k, bound=None: chunk}
+        order = [4, 0, 5, 2, 7, 1, 3, 6, 0, 7]
+
+        def go():
+            toks = [cxi.call(CX.ClassVal(model.cls(
+                LEX + ('TokNewline' if x == 'N' else 'TokName'))),
+                [b'\n' if x == 'N' else x.encode()], {}) for x in layout]
+            pr = cxi.call(CX.ClassVal(cls), [], {'version': 8})
+            cxi.call(cxi.getattr(pr, 'process_tokens'), [toks], {})
+            fn = cxi.getattr(pr, m.name)
+            return [cxi.call(fn, [p_], {}) for p_ in order]
+        paths = cxi.explore(go)
+        if len(paths) != 1 or paths[0][0] or paths[0][1][0] != 'ok':
+            raise CX.CxError('the method forks or raises on the listed '
+                             'token line')
+        got = paths[0][1][1]
+    except AnalysisError as e:
+        res.undecided('R-C08-fence', s.qual, inst,
+                      'evaluation could not follow {}: {}'.format(
+                          m.name, str(e)[:100]), m.loc)
+        return True
+    nl = [i for i, x in enumerate(layout) if x == 'N']
+    want = [min([i for i in nl if i >= p_] or [len(layout)]) for p_ in order]
+    bad = [(p_, g, w) for p_, g, w in zip(order, got, want) if g != w]
+    if not bad:
+        res.holds('R-C08-fence', s.qual, inst,
+                  '{} requests on one parser object over a token line with '
+                  'line ends at {}: every answer is the next line end'.format(
+                      len(order), nl), m.loc)
+        return True
+    p_, g, w = bad[0]
+    msg = 'asked for position {} after positions {}, {} answers {} but the ' \
+        'line of token {} ends at {}: a short-if parsed again after ' \
+        'backtracking owns the following line(s)'.format(
+            p_, order[:order.index(p_)] if order.index(p_) else 'none',
+            m.name, g, p_, w)
+    if foreign:
+        res.undecided('R-C08-fence', s.qual, inst,
+                      msg + ' -- unless the remembered state is reset in '
+                      'between: ' + ', '.join(foreign[:3]), m.loc)
+    else:
+        res.violation('R-C08-fence', s.qual, inst, msg, m.loc,
+                      semantic=True)
+    return True
 
 
 def _fence_is_line_end(ctx, s):
